@@ -440,7 +440,15 @@ fn literal_decimal_int(input: &[u8]) -> LexResult<'_, Token> {
     let (input, int_type_opt) = opt(int_type)(input)?;
     let token = match int_type_opt {
         None => Token::LiteralInt(value),
-        Some(IntType::Unsigned32) => Token::LiteralIntUnsigned32(value),
+        Some(IntType::Unsigned32) => {
+            if value > u32::MAX as u64 {
+                return Err(LexErrorContext(
+                    start_input,
+                    LexerErrorReason::IntegerLiteralTooLarge,
+                ));
+            }
+            Token::LiteralIntUnsigned32(value)
+        }
         Some(IntType::Unsigned64) => Token::LiteralIntUnsigned64(value),
         Some(IntType::Signed64) => match i64::try_from(value) {
             Ok(value) => Token::LiteralIntSigned64(value),
@@ -462,7 +470,15 @@ fn literal_hex_int(input: &[u8]) -> LexResult<'_, Token> {
     let (input, int_type_opt) = opt(int_type)(input)?;
     let token = match int_type_opt {
         None => Token::LiteralInt(value),
-        Some(IntType::Unsigned32) => Token::LiteralIntUnsigned32(value),
+        Some(IntType::Unsigned32) => {
+            if value > u32::MAX as u64 {
+                return Err(LexErrorContext(
+                    start_input,
+                    LexerErrorReason::IntegerLiteralTooLarge,
+                ));
+            }
+            Token::LiteralIntUnsigned32(value)
+        }
         Some(IntType::Unsigned64) => Token::LiteralIntUnsigned64(value),
         Some(IntType::Signed64) => match i64::try_from(value) {
             Ok(value) => Token::LiteralIntSigned64(value),
@@ -484,7 +500,15 @@ fn literal_octal_int(input: &[u8]) -> LexResult<'_, Token> {
     let (input, int_type_opt) = opt(int_type)(input)?;
     let token = match int_type_opt {
         None => Token::LiteralInt(value),
-        Some(IntType::Unsigned32) => Token::LiteralIntUnsigned32(value),
+        Some(IntType::Unsigned32) => {
+            if value > u32::MAX as u64 {
+                return Err(LexErrorContext(
+                    start_input,
+                    LexerErrorReason::IntegerLiteralTooLarge,
+                ));
+            }
+            Token::LiteralIntUnsigned32(value)
+        }
         Some(IntType::Unsigned64) => Token::LiteralIntUnsigned64(value),
         Some(IntType::Signed64) => match i64::try_from(value) {
             Ok(value) => Token::LiteralIntSigned64(value),
